@@ -146,7 +146,7 @@ func ParseContractFile(path string) (*ContractFile, error) {
 			}
 			switch kind {
 			case "requires", "ensures", "modifies", "invariant", "decreases", "local", "terminates", "inline",
-				"recovers", "nopanic", "fresh", "lemma", "assert", "pure", "split", "appends", "appendsAll", "copies", "opaque", "panics", "trusted", "variant", "unroll", "calls_only", "lock", "ghost", "known":
+				"recovers", "nopanic", "fresh", "lemma", "assert", "pure", "split", "appends", "appendsAll", "copies", "mapStore", "mapDelete", "opaque", "panics", "trusted", "variant", "unroll", "calls_only", "lock", "ghost", "known":
 				cl.Kind = kind
 				cl.Text = rest
 				cur.Clauses = append(cur.Clauses, cl)
@@ -373,6 +373,10 @@ func __appends(s interface{}, x interface{}) {}
 func __appendsAll(s interface{}, xs interface{}) {}
 func sameSeq(a, b []interface{}) bool { return false }
 func isFresh(x interface{}) bool { return false }
+func mapAt(m interface{}, key interface{}) interface{} { return nil }
+func mapAll(m interface{}) interface{} { return nil }
+func __mapStore(m interface{}, key interface{}, v interface{}) {}
+func __mapDelete(m interface{}, key interface{}) {}
 func __copies(dst interface{}, src interface{}, n int) {}
 func ghostInt(x interface{}, name string) int { return 0 }
 func ghostBool(x interface{}, name string) bool { return false }
@@ -488,6 +492,12 @@ func (cf *ContractFile) Generate() (string, error) {
 					return "", fmt.Errorf("%s:%d: %v", fc.File, cl.Line, err)
 				}
 				stmt = fmt.Sprintf("__copies(%s)", e)
+			case "mapStore", "mapDelete":
+				e, err := RewriteExpr(cl.Text)
+				if err != nil {
+					return "", fmt.Errorf("%s:%d: %v", fc.File, cl.Line, err)
+				}
+				stmt = fmt.Sprintf("__%s(%s)", cl.Kind, e)
 			case "appendsAll":
 				e, err := RewriteExpr(cl.Text)
 				if err != nil {
